@@ -292,6 +292,12 @@ def check(run):
         crules.idem_rules(run, "C02-registered", ast)
         run.rule("C02-best", "best(): an incomparable member is never removed (so that ambiguity is detected)", floor=3)
         crules.best_rules(run, "C02-best", ast)
+        if "C02-model" not in run.rules:
+            run.rule("C02-model", "what decides 'no / several most specific definitions': applicability by covariant set, every listed base merged, definitions mirrored one to one, every phase run", floor=10)
+        crules.applicable_rules(run, "C02-model", ast)
+        crules.merge_rules(run, "C02-model", None, ast)
+        crules.model_rules(run, "C02-model", ast, parts=("pf", "iter", "vp"))
+        crules.phase_rules(run, "C02-model", ast)
     must = ["yorel::yomm2::method<>::not_implemented_handler", "yorel::yomm2::method<>::ambiguous_handler",
             "checked_perfect_hash<>::hash_type_id", "fast_perfect_hash<>::hash_initialize", "compiler<>::augment_classes",
             "compiler<>::augment_methods", "virtual_ptr<>::final", "backward_compatible_error_handler<>::default_error_handler"]
